@@ -152,8 +152,8 @@ def gen(rng, tier):
         yield c
 
 
-def gen0(rng, tier):
-    n = 1600 if tier == "quick" else 60000
+def gen0(rng, tier, n=None):
+    n = n or (1600 if tier == "quick" else 60000)
     for _ in range(n):
         server, their, limit = pick_limits(rng)
         for z, qn, qt in scenarios(rng, limit, their is not None):
